@@ -240,6 +240,7 @@ int main(int argc, char** argv) {
   g_coin = &coin;
   random_utils::random_bit.source = coin_source;
   for (long seg = 0; seg < segments; seg++) {
+    alarm(30);    // watchdog: a sketch that loops forever is a finding (the recorder dies by SIGALRM), not a hung check
     int kind = (int)g.below(10);
     if (kind < 4) { Driver<double, tent_kernel<double>> d(g, serde_pct, false); d.hdr_pct = hdr_pct; d.segment(seg, events, far_pct); }
     else if (kind < 8) { Driver<float, tent_kernel<float>> d(g, serde_pct, false); d.hdr_pct = hdr_pct; d.segment(seg, events, far_pct); }
